@@ -1,5 +1,5 @@
 (* Props/C01.v — property theorems only. *)
-From GE Require Import Lib.Bytes Lib.Varint Model.Tx Proofs.TxCodec Proofs.GenTie.
+From GE Require Import Lib.Bytes Lib.Varint Model.Tx Model.Block Proofs.TxCodec Proofs.BlockCodec Proofs.GenTie.
 Open Scope N_scope.
 
 (* every well-formed transaction: parse (serialize t) = t, consuming exactly what was written *)
@@ -27,6 +27,28 @@ Print Assumptions C01_varint_roundtrip.
 Theorem C01_varint_canonical : forall bs v r, p_varint bs = Some (v, r) -> bs = varint v ++ r /\ v < two64.
 Proof. exact p_varint_inv. Qed.
 Print Assumptions C01_varint_canonical.
+
+(* block headers: signed-block proof form and dynamic-federation form, compact and full parameters *)
+Theorem C01_header_parse_ser : forall h rest,
+  wf_header h = true -> parse_header (ser_header false h ++ rest) = Some (h, rest).
+Proof. exact header_parse_ser. Qed.
+Print Assumptions C01_header_parse_ser.
+
+Theorem C01_header_ser_parse : forall bs h rest,
+  parse_header bs = Some (h, rest) -> ser_header false h ++ rest = bs /\ wf_header h = true.
+Proof. exact header_ser_parse. Qed.
+Print Assumptions C01_header_ser_parse.
+
+(* whole blocks *)
+Theorem C01_block_parse_ser : forall b rest,
+  wf_block b = true -> parse_block (ser_block b ++ rest) = Some (norm_block b, rest).
+Proof. exact block_parse_ser. Qed.
+Print Assumptions C01_block_parse_ser.
+
+Theorem C01_block_ser_parse : forall bs b rest,
+  parse_block bs = Some (b, rest) -> forallb canonical_flag (b_txs b) = true -> ser_block b ++ rest = bs.
+Proof. exact block_ser_parse. Qed.
+Print Assumptions C01_block_ser_parse.
 
 (* the model's constants are the constants of today's Go source *)
 Theorem C01_constants_tied : tx_consts_tied.
